@@ -99,12 +99,19 @@ _run_clauses = run
 def run(prog, rep):
     _run_clauses(prog, rep)
     from plint.wiring import check_zero_init
+    from plint.wiring import destroy_before_free
+    _ff = prog.unit("pcondvariable-posix.c").fn("p_cond_variable_free")
+    _db = destroy_before_free(_ff, "pthread_cond_destroy")
+    rep.ob("C03.1", _ff, "free:destroy", not _db, "p_cond_variable_free destroys the native object (pthread_cond_destroy) before it releases the memory, on every path" if not _db else
+           "line %d: %s: waiters that the last broadcast woke are still inside pthread_cond_wait on that memory: once the block is reused they see no signal and sleep again - the broadcast did not wake everyone" % _db[0], _db[0][0] if _db else _ff.loc[0])
     check_zero_init(rep, "C03.1", prog, ['pcondvariable-posix.c'], 1)
 
 # generic robustness battery: renaming every local/parameter in these files must not change any verdict
 RENAME_LOCALS = ['src/pcondvariable-posix.c']
 
 SELFTEST = [
+    dict(id="cond-free-without-destroy", file="src/pcondvariable-posix.c", expect="C03.1",
+         old="\tif (P_UNLIKELY (pthread_cond_destroy (&cond->hdl) != 0))\n\t\tP_WARNING (\"PCondVariable::p_cond_variable_free: pthread_cond_destroy() failed\");\n\n", new=""),
     dict(id="broadcast-to-signal", file="src/pcondvariable-posix.c", expect="C03.1",
          old="if (P_UNLIKELY (pthread_cond_broadcast (&cond->hdl) != 0)) {", new="if (P_UNLIKELY (pthread_cond_signal (&cond->hdl) != 0)) {"),
     dict(id="signal-result-dropped", file="src/pcondvariable-posix.c", expect="C03.1",
